@@ -215,7 +215,13 @@ def _box_safe_one(prog, fi, ff, si, a: ast.AST, prob: str, raw: ast.AST):
                         return True, "np.clip(.., out=) against the bounds of the same problem"
     # (d) transformed start
     if fi.qualname == "pygradflow.transform.Transformation.create_transformed_iterate":
-        if t.startswith("__item__(self.transform_sol(") and t.endswith(", 0).astype(self.params.dtype)") and prob == "self.trans_problem":
+        b_ = base
+        first = None
+        if isinstance(b_, ast.Call) and isinstance(b_.func, ast.Name) and b_.func.id == "__item__" and len(b_.args) == 2 and isinstance(b_.args[1], ast.Constant) and b_.args[1].value == 0:
+            first = b_.args[0]
+        elif isinstance(b_, ast.Subscript) and isinstance(b_.slice, ast.Constant) and b_.slice.value == 0:
+            first = b_.value
+        if first is not None and isinstance(first, ast.Call) and U(first.func) == "self.transform_sol" and prob == "self.trans_problem":
             return True, "transformed starting point"
     return False, f"`{t[:80]}` is none of: clamped step result, np.clip against the same problem's bounds, x of an iterate, transformed start"
 
